@@ -42,14 +42,16 @@
       [flat_ok g "Query" flat]  the normalised query selects known fields, uses no reserved alias
                                 (_federation, __key; __typename only for __typename), keeps no selection its
                                 directives exclude (true by construction of the repaired flattener, patches/C06-fix-4),
-                                and every union selection covers every member with a non-empty fragment.
+                                and every union selection has at least one (non-empty) fragment on a member -- it
+                                need not cover every member: an object of a member without a fragment is rendered
+                                with the union-level __typename alone, by the gateway and by the reference alike.
     That the planner succeeds is NOT a premise: [planner_total] / [planner_total_on_normal_forms].
     [fed_ok g] (who has _federation on what, who serves the federated keys) is not needed for the equality of
     answers -- the model's services answer any selection -- but for the plans to be executable by real services:
     [subquery_closed], evaluated on every case in which each service has a federated object.
-    Outside these premises the property is FALSE of the implementation in known ways (DESIGN F4/F5/F17 and the
-    findings in KNOWN_FINDINGS: partial union coverage -- 18 % of the generated cases) or not modelled (mutations:
-    the model's root is Query); the harness' oracle covers those cases end to end.  The flattener as it was
+    Outside these premises: mutations are not modelled (the model's root is Query; 12 % of the generated cases)
+    and lists of hundreds of objects are too large for the evaluation; the harness' oracle covers those cases end
+    to end.  The flattener as it was
     (selections excluded by their own directives took part in the grouping by alias, [fed_exec_gen false])
     violated the property: [gateway_merges_excluded_selection_refuted].
     Schema refreshes: see [request_uses_one_snapshot] and the theorems after it (Federation/Refresh.v).
